@@ -213,7 +213,14 @@ def handle (toks : List String) : String :=
           match flatCheck ffs frs with
           | some what => s!"MODEL-SPEC-MISMATCH {what} model={model}"
           | none => model
-        | _, _ => model
+        | _, _ =>
+          -- nested schemas: byte order of consecutive rows = `cmpRowN` (where the theorem applies)
+          if fs.all (fun f => unionFree f.1) then
+            let pairs := rs.zip (rs.drop 1)
+            if pairs.any (fun (a, b) => compareBytes (encodeRowN fs a) (encodeRowN fs b) != cmpRowN fs a b) then
+              s!"MODEL-SPEC-MISMATCH nested-order model={model}"
+            else model
+          else model
   | _ => "bad-op"
 
 end ArrowModel.C11
